@@ -13,8 +13,8 @@ from envlib import Adapter, Config, choose
 # mask; visited lookup with node = -1 wrapping to the last node).  Set the variables to 1 when the source is repaired.
 import os
 
-FRESH_MASK = os.environ.get("VERIF_MMST_FRESH_MASK", "0") == "1"
-GUARD_VISITED = os.environ.get("VERIF_MMST_GUARD_VISITED", "0") == "1"
+FRESH_MASK = os.environ.get("VERIF_MMST_FRESH_MASK", "1") == "1"  # repaired in /repo (fix: mmst recomputes the action mask …)
+GUARD_VISITED = os.environ.get("VERIF_MMST_GUARD_VISITED", "1") == "1"  # repaired in /repo (fix: mmst does not read the last node…)
 
 
 class A(Adapter):
